@@ -767,6 +767,7 @@ class _OsFacade(object):
         s = self._os
         path = s._norm(path)
         s._ev("rmdir", path)
+        s._maybe_fail("rmdir", path)
         parent, name = s._parent(path)
         ino = parent.entries.get(name)
         if ino is None:
